@@ -350,7 +350,7 @@ func runC12(c *Ctx) {
 				switch {
 				case isEncodedID(k):
 					c.OK("C12.4", fname(fn), target.Name()+" key", w.instrPos(cs), "base64(StdEncoding) of the message's TransactionID")
-				case w.rootOf(fn) == onRtx && w.sameKey(k, onRtx.Params[1]):
+				case w.partOf(fn, onRtx) && w.sameKey(k, onRtx.Params[1]):
 					c.OK("C12.4", fname(fn), target.Name()+" key", w.instrPos(cs), "the key carried by the timer")
 				case target != insert && isOwnKey(k):
 					c.OK("C12.4", fname(fn), target.Name()+" key", w.instrPos(cs), "the transaction's own Key (assigned once, from the encoding it is inserted under)")
